@@ -168,7 +168,15 @@ class TWorld(object):
     else:
       from scales.thriftmux.sink import SocketTransportSink
     self.generation += 1
-    self.sink = SocketTransportSink.Builder().CreateSink(self.props)
+    if self.p.get('singleton_pool'):
+      # a singleton pool in front of the transport (what SingletonPoolSink is meant for): requests that arrive while it is
+      # connecting wait inside the pool, which puts itself on their sink stack only once the connection is there
+      from scales.pool.singleton import SingletonPoolSink
+      pb = SingletonPoolSink.Builder()
+      pb.next_provider = SocketTransportSink.Builder()
+      self.sink = pb.CreateSink(self.props)
+    else:
+      self.sink = SocketTransportSink.Builder().CreateSink(self.props)
     self.open_g = gevent.spawn(lambda: self.sink.Open().wait())
 
   # ---- monitor: every frame the peer has decoded since the last callback ------------------------------
